@@ -53,6 +53,14 @@ func c04Scenarios(tier string) []schedh.Scenario {
 	add("twice", map[string]string{"p/BUILD": rule("a", ":b") + rule("b")}, "//p:a", "//p:b", "//p:a")
 	add("provide", map[string]string{"p/BUILD": "build_rule(name=\"a\", cmd=\"FAKE\", outs=[\"a.out\"], deps=[\":b\"], requires=[\"x\"])\n" +
 		"build_rule(name=\"b\", cmd=\"FAKE\", outs=[\"b.out\"], provides={\"x\": \":c\"})\n" + rule("c")}, "//p:a")
+	// targets needed by a subinclude() are discovered (and forced to build) while another package is parsed
+	sub := map[string]string{"r/BUILD": "subinclude(\"//p:a\")\n" + rule("x"), "p/BUILD": rule("a", "//q:b"), "q/BUILD": rule("b")}
+	add("subinclude", sub, "//r:x")
+	add("subinclude-and-direct", sub, "//p:a", "//r:x")
+	// the same in a query-style invocation: //p:a is first merely activated, then upgraded to "must be built" by the subinclude
+	for _, n := range []int{2, 3} {
+		out = append(out, schedh.Scenario{Name: fmt.Sprintf("query-subinclude-n%d", n), Files: sub, Targets: []string{"//p:a", "//r:x"}, Threads: n, Query: true})
+	}
 	add("postbuild", map[string]string{"p/BUILD": "def _pb(name, output):\n    build_rule(name=\"h\", cmd=\"FAKE\", outs=[\"h.out\"])\n    add_dep(\"a\", \":h\")\n" +
 		"build_rule(name=\"g\", cmd=\"FAKE\", outs=[\"g.out\"], post_build=_pb)\n" + rule("a", ":g")}, "//p:a")
 	return out
@@ -79,6 +87,9 @@ func c05Scenarios(tier string) []schedh.Scenario {
 	chain := map[string]string{"p/BUILD": rule("a", ":b") + rule("b", ":c") + rule("c")}
 	add(false, "cmdfail-leaf", chain, []string{"//p:c"}, f, "//p:a")
 	add(true, "cmdfail-mid", chain, []string{"//p:b"}, t, "//p:a")
+	// keep_going, a dependant of two independent targets of which the later-sorting one fails (while the first is still building)
+	add(true, "cmdfail-fanin", map[string]string{"p/BUILD": rule("t", ":a", ":z") + rule("a") + rule("z")}, []string{"//p:z"}, t, "//p:t")
+	add(false, "cmdfail-fanin-deep", map[string]string{"p/BUILD": rule("t", ":a", ":m") + rule("a") + rule("m", ":z") + rule("z")}, []string{"//p:z"}, t, "//p:t")
 	add(false, "cmdfail-diamond", map[string]string{"p/BUILD": rule("a", ":b", ":c") + rule("b", ":d") + rule("c") + rule("d")}, []string{"//p:d"}, f, "//p:a")
 	add(true, "parse-error", map[string]string{"p/BUILD": rule("a", "//q:b"), "q/BUILD": "build_rule(name=\"b\", cmd=\"FAKE\", outs=[\"b.out\"]\n"}, nil, f, "//p:a")
 	add(true, "undefined-dep", map[string]string{"p/BUILD": rule("a", ":nope")}, nil, f, "//p:a")
@@ -135,6 +146,20 @@ func oracle(prop string, sc schedh.Scenario, obs *schedh.Obs, res *vsched.Result
 	}
 	if !obs.Returned {
 		return "run-did-not-return", obs.String()
+	}
+	if os.Getenv("VERIF_DEBUG_FAILFIRST") != "" {
+		fi, ei := -1, -1
+		for i, e := range obs.Events {
+			if e.Kind == "fail" && fi < 0 {
+				fi = i
+			}
+			if e.Kind == "end" && e.Label == "//p:a" {
+				ei = i
+			}
+		}
+		if fi >= 0 && (ei < 0 || fi < ei) {
+			fmt.Fprintf(os.Stderr, "DEBUG fail-before-end:\n%s\n", obs.String())
+		}
 	}
 	starts := map[string]int{}
 	ended := map[string]int{} // index of end event
@@ -204,7 +229,12 @@ func oracle(prop string, sc schedh.Scenario, obs *schedh.Obs, res *vsched.Result
 				visit(d)
 			}
 		}
-		for _, t := range sc.Targets {
+		roots := sc.Targets
+		if sc.Query {
+			// a query-style invocation builds only what a subinclude() needs: here //p:a (and what it depends on)
+			roots = []string{"//p:a"}
+		}
+		for _, t := range roots {
 			if strings.HasSuffix(t, ":all") {
 				for l := range obs.Deps {
 					if strings.HasPrefix(l, strings.TrimSuffix(t, "all")) {
@@ -227,7 +257,17 @@ func oracle(prop string, sc schedh.Scenario, obs *schedh.Obs, res *vsched.Result
 		if sc.MustFail && !obs.Failed {
 			return "failure-not-reported", "a requested target could not be built but the build reports success\n" + obs.String()
 		}
-		// never run a target whose dependency failed
+		// never run a target whose dependency failed: neither its command nor its build step (a "building" result means the
+		// target was handed to a build worker; with a failed dependency it may only be marked, never attempted)
+		for _, e := range obs.Events {
+			if e.Kind == "result" && e.Info == "3" { // core.TargetBuilding
+				for _, d := range obs.Deps[e.Label] {
+					if failedCmd[d] {
+						return "build-attempted-after-failed-dep", e.Label + " was handed to a build worker although its dependency " + d + " failed\n" + obs.String()
+					}
+				}
+			}
+		}
 		for l := range starts {
 			for _, d := range obs.Deps[l] {
 				if failedCmd[d] {
@@ -389,8 +429,10 @@ func main() {
 	}
 	var stats []scStat
 	total := workerOut{Outcomes: map[string]int{}, Complete: true}
-	jobDir := filepath.Join(lib.VerifRoot, ".work", "sched", "jobs")
+	// private to this run: C04 and C05 (and runs against other trees) may be running at the same time
+	jobDir := filepath.Join(lib.VerifRoot, ".work", "sched", fmt.Sprintf("jobs-%s-%d", *prop, os.Getpid()))
 	os.MkdirAll(jobDir, 0o755)
+	defer os.RemoveAll(jobDir)
 	const nworkers = 16
 	hardTotal := 0
 	maxBound := 1
@@ -536,6 +578,7 @@ func main() {
 		"file-system operations of one build step are atomic between two synchronisation points; the results consumer stops the build on the first failure unless keep_going, as output.MonitorState does",
 		"timers (cycle-check 5 s, waitOnChan 10 s) run on a fake clock: they fire when nothing else can run, and (C05) early at the cost of one deviation",
 	}
+	os.RemoveAll(jobDir) // (r.Finish exits the process)
 	r.Finish(lib.Coverage{
 		Evaluations:        total.Executions,
 		DistinctNontrivial: total.Observed,
